@@ -959,7 +959,7 @@ impl<R: Read> Deserializer<R> {
 //@@ subst `unreachable!()` => `{ marker_cannot_be(); Err(Error::InvalidFormatCode) }` rule=R12
 //@@ spec
     requires bounded(old(self).reader),
-        !(old(self).non_native_type is Some && old(self).non_native_type->Some_0 is LazyValue),     // ASSUMED internal invariant: the LazyValue marker is set by deserialize_newtype_struct(LAZY_VALUE) only, which hands it straight to deserialize_byte_buf, which consumes it on every path ([C03.marker.one-shot] there); deserialize_newtype_struct itself is not under contract
+        !(old(self).non_native_type is Some && old(self).non_native_type->Some_0 is LazyValue),     // internal invariant, discharged at the call sites in unit DEENTRY ([C04.marker.no-unreachable-panic@deserialize_bytes] there: deserialize_newtype_struct, the only place that sets markers, hands the LazyValue marker straight to deserialize_byte_buf, which consumes it on every path -- [C03.marker.one-shot]); what stays assumed is that a visitor leaves no marker behind where there was none (induction over the nesting depth, not mechanised)
     ensures
         old(self).non_native_type is Some && (old(self).non_native_type->Some_0 is Dec32 || old(self).non_native_type->Some_0 is Dec64 || old(self).non_native_type->Some_0 is Dec128 || old(self).non_native_type->Some_0 is Uuid)
             ==> final(self).non_native_type is None,                                                 // [C03.marker.one-shot] the decimal / uuid marker is consumed by the value it marks
